@@ -116,9 +116,11 @@ RECURSIVE Pow2(_)
 Pow2(k) == IF k = 0 THEN Big(1) ELSE IF k >= 13 THEN MulInt(Pow2(k - 13), 8192) ELSE MulInt(Pow2(k - 1), 2)
 
 \* ------------------------------------------------------------------ the 64-bit range
-Two63 == Pow2(63)
-MaxI64 == Sub(Two63, Big(1))
-MinI64 == Neg(Two63)
+\* (written out as limbs: TLC caches a definition only if it does not depend on a RECURSIVE operator)
+Two63 == [neg |-> FALSE, mag |-> <<5808, 5477, 368, 3372, 922>>]           \* 2^63 = 9223372036854775808
+MaxI64 == [neg |-> FALSE, mag |-> <<5807, 5477, 368, 3372, 922>>]          \* 2^63 - 1
+MinI64 == [neg |-> TRUE, mag |-> <<5808, 5477, 368, 3372, 922>>]           \* -2^63
+ASSUME Two63 = Pow2(63) /\ MaxI64 = Sub(Two63, Big(1)) /\ MinI64 = Neg(Two63)
 Fits64(x) == Cmp(x, MinI64) >= 0 /\ Cmp(x, MaxI64) <= 0
 
 \* x ^ n for a TLC integer n >= 0, stopping as soon as the magnitude exceeds 2^63 (it can only grow
